@@ -137,10 +137,10 @@ Definition x_set_completed (c : cfg) (s : st) : option st := Some (s <| complete
 Definition x_read_cb (c : cfg) (s : st) : option st := Some (s <| xcb := cb s |> <| xp := X_read_extra |>).
 Definition x_read_extra (c : cfg) (s : st) : option st := Some (s <| xextra := extra s |> <| xp := X_unlock |>).
 Definition x_unlock (c : cfg) (s : st) : option st := Some (s <| lock := None |> <| xp := X_notify |>).
+(** how execute() ends: returns, or re-raises the task's exception (whatever the callback did) *)
+Definition xcont (o : outcome) : xresult := match o with BRet _ => XReturned | BRaise e => XRaised e end.
 Definition x_notify (c : cfg) (s : st) : option st :=
-  Some (notify c TX (xcb s) (xextra s) s
-          <| xout := Some (match body c with BRet _ => XReturned | BRaise e => XRaised e end) |>
-          <| xp := X_end |>).
+  Some (notify c TX (xcb s) (xextra s) s <| xout := Some (xcont (body c)) |> <| xp := X_end |>).
 
 (* registrar i *)
 Definition r_lock (c : cfg) (i : nat) (s : st) : option st :=
